@@ -12,5 +12,4 @@ INVARIANT WindowIsLastW
 INVARIANT MemoryUntouched
 INVARIANT DocStandard
 INVARIANT DocSliding
-INVARIANT MonotoneInLatestSampled
 INVARIANT Emit
